@@ -123,6 +123,17 @@ def run(ctx):
     ctx.log("theorems: %d/%d discharged, table obligations: %d/%d" % (
         len(info["discharged"]), len(info["theorems"]), len(ob_ok), len(ob_names)))
 
+    coqchk = None
+    if ctx.tier == "thorough" and not ctx.replay and info["rc"] == 0:
+        # independent re-check of the compiled development by coqchk, and its axiom summary
+        g = os.path.join(common.VERIF, "coq", GROUP)
+        rc_chk, out_chk = common.sh(["coqchk", "-silent", "-o", "-Q", os.path.join(common.VERIF, "coq", "lib"), "FwdLib",
+                                     "-Q", g, ctx.group_logical(GROUP), ctx.group_logical(GROUP) + ".C08"], cwd=g, timeout=1500)
+        coqchk = " ".join(out_chk.split())[-400:]
+        if rc_chk != 0 or "Axioms: <none>" not in coqchk:
+            ob_failed.append("coqchk did not confirm an axiom-free development: " + coqchk)
+        ctx.log("coqchk:", "ok, no axioms" if rc_chk == 0 and "Axioms: <none>" in coqchk else coqchk)
+
     hb, hlog = ctx.build_harness("c08")
     meta = {}
     model_bad = []      # (kind, case)
@@ -242,8 +253,8 @@ def run(ctx):
         "obligations": len(info["theorems"]) + len(ob_names),
         "discharged": len(info["discharged"]) + len(ob_ok),
         "table_obligations": ob_names,
-        "checker_cmd": "make -j16 (coq_makefile, full .vo) in coq/lib and coq/g08; coqc C08.v; coqc on %d cases shards (vm_compute)"
-                       % sum(len(k["shards"]) for k in meta.get("kinds", [])),
+        "checker_cmd": "make -j16 (coq_makefile, full .vo) in coq/lib and coq/g08; coqc C08.v; coqc on %d cases shards (vm_compute)%s"
+                       % (sum(len(k["shards"]) for k in meta.get("kinds", [])), "; coqchk -silent -o G08.C08" if coqchk else ""),
         "trusted_base": common.standard_trusted_base([
             "Print Assumptions per theorem: %s" % json.dumps(info["assumptions"]),
             "modelled, not verified: io.ReadFull / one-byte Read contract (rd n), net.ParseIP (Go 1.23 netip.ParseAddr, transcribed by hand "
@@ -251,6 +262,7 @@ def run(ctx):
             "Conn.readHeaderContext (tested end to end only), connfu.Combine, the martian accept loop",
         ]),
         "theorems": info["theorems"],
+        "coqchk": coqchk,
         "unchecked_obligations": ob_failed,
         "evaluations": evaluations,
         "distinct_nontrivial": nontriv,
